@@ -90,8 +90,12 @@ class Report:
       print('ANALYSIS-ERROR instance floor: %s found=%d expected>=%d' % (
           w, f, e))
 
-    os.makedirs(EVIDENCE_DIR, exist_ok=True)
-    replay = os.path.join(EVIDENCE_DIR, self.pid + '.replay.json')
+    evdir = EVIDENCE_DIR
+    if os.environ.get('MLSTATIC_NOEVIDENCE'):
+      import tempfile
+      evdir = tempfile.mkdtemp(prefix='mlstatic_ev_')
+    os.makedirs(evdir, exist_ok=True)
+    replay = os.path.join(evdir, self.pid + '.replay.json')
     code = 0
     if new:
       with open(replay, 'w') as f:
@@ -149,8 +153,11 @@ class Report:
         'violations': len(new),
     }
     ev['coverage'].update(self.notes)
-    with open(os.path.join(EVIDENCE_DIR, self.pid + '.json'), 'w') as f:
+    with open(os.path.join(evdir, self.pid + '.json'), 'w') as f:
       json.dump(ev, f, indent=1, default=str)
+    if os.environ.get('MLSTATIC_NOEVIDENCE'):
+      import shutil
+      shutil.rmtree(evdir, ignore_errors=True)
     print('%s %s: obligations=%d derived=%d refuted=%d (known=%d) '
           'inconclusive=%d functions=%d wall=%.2fs -> exit %d' % (
               self.pid, self.tier, len(self.obs), len(derived), len(refuted),
